@@ -159,7 +159,14 @@ def execute(case):
         res.cls("tag:" + t)
     if op == "rbind":
         frames = case["frames"]
-        dfs = [gen.build_frame(s) for s in frames]
+        if len(frames) >= 2 and len(repr(frames[0])) % 7 == 0:
+            # the same frame OBJECT appears twice among the operands (data.rbind(data), rbind(a, b, a))
+            frames = list(frames) + [frames[0]]
+            dfs = [gen.build_frame(s) for s in frames[:-1]]
+            dfs.append(dfs[0])
+            res.cls("rbind:same-object-twice")
+        else:
+            dfs = [gen.build_frame(s) for s in frames]
         pres = [canon.frame_cells(d) for d in dfs]
         nrows = [len(s[0][2]) if s else 0 for s in frames]
         names = []
